@@ -266,3 +266,66 @@ def rewired_prover_verdicts(cases, name, pp_log=12):
         elif res[c2].startswith("OK") and res[c3].startswith("OK"): out[cid] = "ACCEPTED"
         else: out[cid] = "REJECTED"
     return out
+
+
+def mixed_sequences(rng, count, focus):
+    """Programs that call several scalar gadgets on a SHARED pool of three witnesses in one composer (each witness is
+    used by several calls, at different widths, by different gadget kinds; [focus] is over-represented).  Every op is
+    satisfiable for the chosen values.  Returns [(body, [(op, params, result position or None, expected value)])]."""
+    out = []
+    for _ in range(count):
+        vals = [rng.choice([rng.scalar(), rng.randrange(1 << 16), R - 1, rng.randrange(1 << 64)]) for _ in range(3)]
+        body = ["w " + hx(v) for v in vals]
+        nres = 3; calls = []
+        for _k in range(rng.randrange(4, 8)):
+            op = rng.choice([focus, focus, "trunc", "land", "lxor", "rbits"])
+            a = rng.randrange(3); b = rng.randrange(3)
+            if op == "trunc":
+                n = rng.choice([0, 1, 7, 8, 16, 33, 64, 100, 254])
+                body.append(f"trunc {n} ${a}"); calls.append(("trunc", (n, a), nres, vals[a] % (1 << n))); nres += 1
+            elif op in ("land", "lxor"):
+                p = rng.choice([0, 1, 2, 4, 8, 16, 32, 33, 64, 127])
+                f = (lambda u, v: u & v) if op == "land" else (lambda u, v: u ^ v)
+                N = 2 * p
+                body.append(f"{op} {p} ${a} ${b}"); calls.append((op, (p, a, b), nres, f(vals[a] % (1 << N), vals[b] % (1 << N)) if N else 0)); nres += 1
+            else:
+                w = max(vals[a].bit_length(), 1) + rng.choice([0, 0, 1, 5, 40])
+                w = min(w, 256) if vals[a].bit_length() < 255 else rng.choice([255, 256])
+                body.append(f"rbits {w} ${a}"); calls.append(("rbits", (w, a), None, None))
+        out.append((body + ["snap"], calls))
+    return out
+
+
+def check_mixed_sequences(ck, seqs, name, prop):
+    """run the programs on the real composer and on the model: layouts and witness values must agree (L3), the real
+    assignment must satisfy the real rows, and every call must return its own result"""
+    lines, progs = [], {}
+    for i, (body, calls) in enumerate(seqs):
+        nm = f"mix{i}"; progs[nm] = body; lines.append("prog " + nm); lines.extend(body)
+        ck.count(("mixed", tuple(body)), kind="mixed sequences on shared witnesses")
+    impl, model = run_both(ck, "\n".join(lines) + "\n", name)
+    bad = compare_programs(ck, progs, impl, model, prop)
+    jobs = []
+    for i, (body, calls) in enumerate(seqs):
+        nm = f"mix{i}"
+        if nm not in impl: continue
+        out = impl[nm]
+        if any(l.startswith(("PANIC", "E ")) for l in out):
+            ck.violation(f"a gadget failed inside a sequence of calls on shared witnesses: {[l for l in out if l.startswith(('PANIC', 'E '))][0][:100]}",
+                         {"failing_input_found": True, "program": body}, key="mixed-error"); continue
+        snap = Snapshot(out)
+        res = [int(r_[0]) for r_ in snap.results if r_ and r_[0].isdigit()]
+        for op, params, pos, want in calls:
+            if pos is None or pos >= len(res): continue
+            got = snap.wits[res[pos]] if res[pos] < len(snap.wits) else None
+            if got != want:
+                ck.violation(f"in a sequence of gadget calls on shared witnesses, {op}{params} returned {got:#x}, expected {want:#x}" if got is not None else f"{op}{params}: no result",
+                             {"failing_input_found": True, "program": body, "call": [op, list(params)]}, key=f"mixed-value:{op}")
+                break
+        jobs.append((nm, snap, None))
+    verd = model_sat(jobs, name + "_sat") if jobs else {}
+    for nm, snap, _ in jobs:
+        if verd.get(nm) is not None:
+            ck.violation(f"the honest assignment of a sequence of gadget calls on shared witnesses does not satisfy its own rows (first bad row {verd[nm]})",
+                         {"failing_input_found": True, "program": progs[nm]}, key="mixed-sat")
+    return bad, progs
